@@ -1,1 +1,175 @@
-/-! Property theorems for C02 (stub: none yet). -/
+import TxdbusModel.Proofs.Wire.TopLevel
+/-!
+Property C02 - encoded bytes are exactly the DBus wire format, in both directions.
+
+1. `C02_alignTable`, `C02_padding`: the alignment table generated from `dbus_types` is the table of the
+   specification, and `pad[code](off)` is `(A - off % A) % A` zero bytes for each of the 17 type codes and
+   EVERY offset, which brings the offset to a multiple of `A`.
+2. `C02_encode`: `marshal(render ts, values, off, lendian)` = `Spec.encode` with the specification's
+   alignment table, for all signatures, conforming values, offsets, both byte orders.
+3. `C02_decode`: every spec-conformant encoding (image of `Spec.encode`: also big endian, also variants
+   typed in ways txdbus itself never produces), placed at `off` in arbitrary surrounding bytes, is decoded
+   by `unmarshal` to the value it encodes, with the right length.
+4. `layout_*`: the reference encoder `Spec.encode` is visibly the rule set of the statement - each value
+   starts at a multiple of its alignment counted from offset 0 of the message, padding bytes are zero,
+   the array length word is the byte length of the elements including the padding between them and
+   excluding the padding before the first, strings / object paths are `u32 len ++ bytes ++ [0]`,
+   signatures `u8 len ++ bytes ++ [0]`, a variant is the signature of its content followed by the aligned
+   content, and the byte order argument reverses every multi-byte integer.
+-/
+namespace Txdbus
+
+/-- `dbus_types` (generated) is the alignment table of the specification: exactly the 17 type codes (in any
+order, none twice), each with the specification's alignment. -/
+theorem C02_alignTable :
+    Gen.Wire.alignTable.length = 17 ∧
+    (∀ c ∈ Code.typeCodes, Gen.Wire.alignTable.lookup c = some (Spec.alignTable c)) ∧
+    ∀ p ∈ Gen.Wire.alignTable, p.1 ∈ Code.typeCodes ∧ Spec.alignTable p.1 = p.2 :=
+  Code.alignTable_eq_spec
+
+/-- The padding rule, for every type code of the table and every offset (not only 0..63). -/
+theorem C02_padding (c : Char) (a : Nat) (h : (c, a) ∈ Gen.Wire.alignTable) (off : Nat) :
+    Code.padLenOf c off = .ok ((a - off % a) % a) ∧ 0 < a ∧ (off + (a - off % a) % a) % a = 0 := by
+  have hpos : 0 < a := by
+    have h2 := (Code.alignTable_eq_spec.2.2 (c, a) h).2
+    simp only at h2
+    obtain ⟨hc, _⟩ := Code.alignTable_eq_spec.2.2 (c, a) h
+    simp only [Code.typeCodes, List.mem_cons, List.not_mem_nil, or_false] at hc
+    rcases hc with h | h | h | h | h | h | h | h | h | h | h | h | h | h | h | h | h <;> subst h <;>
+      (rw [← h2]; decide)
+  exact ⟨Code.padLenOf_spec c a h off, hpos, padLen_aligned a off hpos⟩
+
+/-- `marshal` produces exactly the bytes the specification defines (see `Code.marshal_eq_spec`). -/
+theorem C02_encode (le : Bool) (ts : List Ty) (pv : PyVal) (items : List PyVal) (vs : List Val)
+    (fdl : List PyVal) (k' off : Nat) (bs : Bytes) (fuel : Nat)
+    (hitems : Code.topItems pv = .ok items) (hrep : Code.RepFields fdl vs true ts items 0 k')
+    (henc : Spec.encodeAll Spec.alignTable (endianOf le) ts vs off = some bs) (hfuel : depthAll vs ≤ fuel) :
+    Code.marshal fuel (renderAll ts) pv off le (some []) = .ok (bs.length, bs, some (fdl.take k')) :=
+  Code.marshal_eq_spec le ts pv items vs fdl k' off bs fuel hitems hrep henc hfuel
+
+/-- `unmarshal` decodes every spec-conformant encoding to the value it encodes. -/
+theorem C02_decode (le : Bool) (fds : Code.Fds) (ts : List Ty) (vs : List Val) (off : Nat)
+    (bs pre suf : Bytes) (values : List PyVal) (fuel : Nat)
+    (hts : allWF ts = true) (henc : Spec.encodeAll Spec.alignTable (endianOf le) ts vs off = some bs)
+    (hpre : pre.length = off) (hval : Code.fromSpecFields fds vs ts = some values) (hfuel : depthAll vs ≤ fuel) :
+    Code.unmarshal fuel (renderAll ts) (pre ++ bs ++ suf) off le fds = .ok (bs.length, values) :=
+  Code.unmarshal_eq_spec le fds ts vs off bs pre suf values fuel hts henc hpre hval hfuel
+
+/-- Satisfiable: a big-endian encoding of a variant holding an EMPTY array of INT32 (a typing txdbus's own
+encoder never produces: it sends empty lists as `av`) followed by a descriptor index. -/
+example :
+    let ts : List Ty := [.variant, .basic .h]
+    let vs : List Val := [.variant (.array (.basic .i)) (.array []), .int 1]
+    allWF ts = true ∧ (Spec.encodeAll Spec.alignTable (endianOf false) ts vs 1).isSome = true ∧
+      Code.fromSpecFields (some [.int .plain 7, .int .plain 9]) vs ts = some [.list [], .int .plain 9] ∧
+      depthAll vs ≤ 2 := by
+  refine ⟨by decide, by decide, ?_, by decide⟩
+  simp [Code.fromSpecFields, Code.fromSpec, Code.fromSpecList]
+
+/-! ### the layout rules, read off the reference encoder (every alignment table, both byte orders) -/
+
+/-- Values in sequence (message body, struct fields): zero padding up to the alignment of the type, counted
+from offset 0 of the message, then the value. -/
+theorem layout_fields (A : AlignTable) (e : Endian) (t : Ty) (ts : List Ty) (v : Val) (vs : List Val)
+    (off : Nat) (bs : Bytes) (h : Spec.encodeFields A e (t :: ts) (v :: vs) off = some bs) :
+    ∃ b r, Spec.encode A e t v (off + padLen (A t.code) off) = some b ∧
+      Spec.encodeFields A e ts vs (off + padLen (A t.code) off + b.length) = some r ∧
+      bs = zeros (padLen (A t.code) off) ++ b ++ r ∧
+      (0 < A t.code → (off + padLen (A t.code) off) % A t.code = 0) := by
+  simp only [Spec.encodeFields] at h
+  split at h <;> try (simp at h; done)
+  rename_i b hb
+  split at h <;> try (simp at h; done)
+  rename_i r hr
+  simp only [Option.some.injEq] at h
+  exact ⟨b, r, hb, hr, h.symm, padLen_aligned _ _⟩
+
+/-- Array elements: each aligned the same way (the padding between elements is part of the data). -/
+theorem layout_elems (A : AlignTable) (e : Endian) (el : Ty) (v : Val) (vs : List Val)
+    (off : Nat) (bs : Bytes) (h : Spec.encodeElems A e el (v :: vs) off = some bs) :
+    ∃ b r, Spec.encode A e el v (off + padLen (A el.code) off) = some b ∧
+      Spec.encodeElems A e el vs (off + padLen (A el.code) off + b.length) = some r ∧
+      bs = zeros (padLen (A el.code) off) ++ b ++ r ∧
+      (0 < A el.code → (off + padLen (A el.code) off) % A el.code = 0) := by
+  simp only [Spec.encodeElems] at h
+  split at h <;> try (simp at h; done)
+  rename_i b hb
+  split at h <;> try (simp at h; done)
+  rename_i r hr
+  simp only [Option.some.injEq] at h
+  exact ⟨b, r, hb, hr, h.symm, padLen_aligned _ _⟩
+
+/-- ARRAY: UINT32 length, zero padding to the element alignment (not counted), the elements; the length
+word is the byte length of the element data. -/
+theorem layout_array (A : AlignTable) (e : Endian) (el : Ty) (vs : List Val) (off : Nat) (bs : Bytes)
+    (h : Spec.encode A e (.array el) (.array vs) off = some bs) :
+    ∃ body, Spec.encodeElems A e el vs (off + 4 + padLen (A el.code) (off + 4)) = some body ∧
+      bs = encUInt e 4 body.length ++ zeros (padLen (A el.code) (off + 4)) ++ body ∧
+      body.length ≤ 67108864 := by
+  simp only [Spec.encode] at h
+  split at h <;> try (simp at h; done)
+  rename_i body hbody
+  split at h <;> try (simp at h; done)
+  rename_i hmax
+  simp only [Option.some.injEq] at h
+  exact ⟨body, hbody, h.symm, hmax⟩
+
+/-- STRING / OBJECT_PATH: UINT32 length, the bytes (no NUL inside), one NUL. -/
+theorem layout_string (A : AlignTable) (e : Endian) (c : Basic) (hc : c = .s ∨ c = .o) (s : Bytes)
+    (off : Nat) (bs : Bytes) (h : Spec.encode A e (.basic c) (.str s) off = some bs) :
+    bs = encUInt e 4 s.length ++ s ++ [0] ∧ (0 : UInt8) ∉ s := by
+  simp only [Spec.encode, Spec.encBasic] at h
+  rcases hc with rfl | rfl <;> simp only [Basic.shape] at h <;>
+    (split at h <;> try (simp at h; done)) <;> rename_i hh <;> simp only [Option.some.injEq] at h <;>
+    exact ⟨h.symm, by simpa [Spec.strOk] using hh.1⟩
+
+/-- SIGNATURE: one length byte, the bytes, one NUL. -/
+theorem layout_signature (A : AlignTable) (e : Endian) (s : Bytes) (off : Nat) (bs : Bytes)
+    (h : Spec.encode A e (.basic .g) (.str s) off = some bs) :
+    bs = encUInt e 1 s.length ++ s ++ [0] ∧ s.length < 256 := by
+  simp only [Spec.encode, Spec.encBasic, Basic.shape] at h
+  split at h <;> try (simp at h; done)
+  rename_i hh
+  simp only [Option.some.injEq] at h
+  exact ⟨h.symm, hh.2⟩
+
+/-- VARIANT: the signature of the content (a single complete type), then the content aligned to its own
+type. -/
+theorem layout_variant (A : AlignTable) (e : Endian) (t : Ty) (v : Val) (off : Nat) (bs : Bytes)
+    (h : Spec.encode A e .variant (.variant t v) off = some bs) :
+    ∃ body,
+      let sg := encUInt e 1 t.render.length ++ Spec.sigBytes t ++ [0]
+      let p := padLen (A t.code) (off + sg.length)
+      Spec.encode A e t v (off + sg.length + p) = some body ∧ bs = sg ++ zeros p ++ body ∧
+      (0 < A t.code → (off + sg.length + p) % A t.code = 0) := by
+  simp only [Spec.encode] at h
+  split at h <;> try (simp at h; done)
+  split at h <;> try (simp at h; done)
+  rename_i body hbody
+  simp only [Option.some.injEq] at h
+  exact ⟨body, hbody, h.symm, padLen_aligned _ _⟩
+
+/-- STRUCT: the fields in sequence (the struct itself is aligned by its parent, see `layout_fields`). -/
+theorem layout_struct (A : AlignTable) (e : Endian) (fs : List Ty) (vs : List Val) (off : Nat) :
+    Spec.encode A e (.struct fs) (.struct vs) off = Spec.encodeFields A e fs vs off := by
+  simp only [Spec.encode]
+
+/-- The byte order argument reaches every multi-byte integer: big endian is the reversed little endian. -/
+theorem layout_byte_order (k n : Nat) (i : Int) :
+    encUInt .big k n = (encUInt .little k n).reverse ∧ encSInt .big k i = (encSInt .little k i).reverse := by
+  simp [encUInt, encSInt]
+
+end Txdbus
+
+#print axioms Txdbus.C02_alignTable
+#print axioms Txdbus.C02_padding
+#print axioms Txdbus.C02_encode
+#print axioms Txdbus.C02_decode
+#print axioms Txdbus.layout_fields
+#print axioms Txdbus.layout_elems
+#print axioms Txdbus.layout_array
+#print axioms Txdbus.layout_string
+#print axioms Txdbus.layout_signature
+#print axioms Txdbus.layout_variant
+#print axioms Txdbus.layout_struct
+#print axioms Txdbus.layout_byte_order
